@@ -6,6 +6,16 @@ import common as c
 from gen_values import dense_pool, N, S, L, R, B, NULL, V
 
 PID = "C12"
+MANIFEST = {
+    "text": "17 Coq theorems over all values of the model (equivalence of .== on data, key-order insensitivity, "
+            "trichotomy, unions, antisymmetry, transitivity, lexicographic/prefix-first, cross-type, unchecked "
+            "built-ins), model tied to the code by an exhaustive pairwise correspondence over a dense value pool and "
+            "by the laws re-checked on the implementation's own answers",
+    "note": "trusted: Coq kernel + vm_compute; the hand transcription of Value::equals/compare (validated by "
+            "correspondence on every ordered pair of the pool); Rust str ordering = byte order; no axioms (Closed "
+            "under the global context)",
+    "design_ref": "DESIGN.md section 6 C12",
+}
 OPS = [".<", ".<=", ".>", ".>="]
 
 
